@@ -90,6 +90,43 @@ mod verif_kani {
     // underscores (concrete length) does not finish in 300 s (filter_underscore collects into a String,
     // u64::from_str_radix).  Literal PARSING is therefore not covered; only the value computation is.
 
+    fn parsed_value(text: &str) -> Option<f64> {
+        match text.parse::<NumberExpression>() {
+            Ok(n) => {
+                let v = n.compute_value();
+                core::mem::forget(n);
+                Some(v)
+            }
+            Err(_) => None,
+        }
+    }
+
+    //@harness props=C13,C12 kind=bounded fns=NumberExpression::from_str,HexNumber::compute_value bound="ENUMERATED literals: 0x10, 0XfF, 0x_f_F" budget=300
+    //@ desc="hexadecimal literals parse to the value Luau gives them: digits case-insensitive, underscores ignored"
+    #[kani::proof]
+    #[kani::unwind(24)]
+    fn vk_number_parse_hex_enumerated() {
+        assert!(parsed_value("0x10") == Some(16.0), "C13: 0x10 == 16");
+        assert!(parsed_value("0XfF") == Some(255.0), "C13: 0XfF == 255");
+        assert!(parsed_value("0x_f_F") == Some(255.0), "C13: underscores are ignored");
+        kani::cover!(true);
+    }
+
+    // MEASURED, out of reach: the single ENUMERATED 18-character literal `0x1000000000000081` (61 bits, must round
+    // ONCE to 2^60+256) through from_str does not finish in 300 s; four short literals in one harness: same.
+    // Wide literals are therefore not covered by the parsing obligations (their VALUE computation is, above).
+
+    //@harness props=C13,C12 kind=bounded fns=NumberExpression::from_str,BinaryNumber::compute_value bound="ENUMERATED literals: 0b101, 0B1_1, 0b11111111" budget=300
+    //@ desc="binary literals parse to the value Luau gives them: underscores ignored"
+    #[kani::proof]
+    #[kani::unwind(24)]
+    fn vk_number_parse_binary_enumerated() {
+        assert!(parsed_value("0b101") == Some(5.0), "C13: 0b101 == 5");
+        assert!(parsed_value("0B1_1") == Some(3.0), "C13: underscores are ignored");
+        assert!(parsed_value("0b11111111") == Some(255.0), "C13: 0b11111111 == 255");
+        kani::cover!(true);
+    }
+
     //@harness props=C13 kind=mustfail fns=HexNumber::compute_value
     //@ desc="vacuity witness: the false claim `the exponent never matters` must be refuted"
     #[kani::proof]
